@@ -1,2 +1,125 @@
--- driver stub for C10: replaced by the real line-protocol driver
-def main : IO Unit := pure ()
+/-
+Line-protocol driver for C10. One request = one batch:
+  {"cells":[wire cell …], "items":[item …]}      (items refer to cells by index into "cells")
+  item: {"op":"join"|"merge", "ty":str, "on":[str…]|null, "a":[i…], "b":[i…], "impl":R}
+        {"op":"coalesce", "ts":[[i…]…], "impl":R}
+        {"op":"addStatics", "a":[i…], "b":[i…], "statics":[str…], "impl":R}
+        {"op":"periodMerge", "a":[i…], "b":[i…], "suffix":str|null, "impl":R}
+  R = {"ok": [i…]} (join: [[i|null, i|null]…]) | {"err": class}
+answer {"res":[{"same":bool, "hyp":bool, "spec":bool|null, "model":dump (only when not same)} …]}.
+"same": model result = implementation result (join: as multisets of pairs — Python returns them in
+set-iteration order). "hyp": the distinct-keys hypothesis of the Spec predicate holds for the input. "spec": the Spec
+predicate on the implementation's output (null: hypothesis false / implementation raised).
+-/
+import Bermuda.Model.Json
+import Bermuda.Model.Join
+import Bermuda.Spec.C10
+open Lean Bermuda
+
+def idxList (tbl : Array Cell) (j : Json) : Except String (List Cell) := do
+  (← j.getArr?).toList.mapM fun e => do
+    let i ← e.getNat?
+    match tbl[i]? with
+    | some c => pure c
+    | none => throw s!"cell index {i} out of range"
+
+def optIdx (tbl : Array Cell) (j : Json) : Except String (Option Cell) := do
+  if j.isNull then return none
+  let i ← j.getNat?
+  match tbl[i]? with
+  | some c => pure (some c)
+  | none => throw s!"cell index {i} out of range"
+
+def pairList (tbl : Array Cell) (j : Json) : Except String (List CellPair) := do
+  (← j.getArr?).toList.mapM fun e => do
+    let a ← e.getArr?
+    if a.size != 2 then throw "pair: want 2"
+    return (← optIdx tbl a[0]!, ← optIdx tbl a[1]!)
+
+def strList (j : Json) : Except String (List String) := do
+  (← j.getArr?).toList.mapM (·.getStr?)
+
+def optStrList (j : Json) (k : String) : Except String (Option (List String)) :=
+  match j.getObjVal? k with
+  | .ok v => if v.isNull then .ok none else (strList v).map some
+  | .error _ => .ok none
+
+def pairToJson (p : CellPair) : Json :=
+  Json.arr #[optToJson Cell.toJson p.1, optToJson Cell.toJson p.2]
+
+def pairsToJson (ps : List CellPair) : Json := Json.arr (ps.map pairToJson).toArray
+
+/-- multiset equality -/
+def permB {α} [BEq α] : List α → List α → Bool
+  | [], l₂ => l₂.isEmpty
+  | a :: l₁, l₂ => l₂.contains a && permB l₁ (l₂.erase a)
+
+/-- implementation result: `ok` payload or error class -/
+def implOf {α} (f : Json → Except String α) (j : Json) : Except String (Except String α) := do
+  let r ← j.getObjVal? "impl"
+  match r.getObjVal? "err" with
+  | .ok e => return .error (← e.getStr?)
+  | .error _ => return .ok (← f (← r.getObjVal? "ok"))
+
+def answer {α} (toJ : α → Json) (eq : α → α → Bool) (model : Except Err α)
+    (impl : Except String α) (hyp : Bool) (spec : α → Bool) : Json :=
+  let same := match model, impl with
+    | .ok m, .ok i => eq m i
+    | .error e, .error c => e.name == c
+    | _, _ => false
+  let specJ : Json := match impl with
+    | .ok i => if hyp then Json.bool (spec i) else Json.null
+    | .error _ => Json.null
+  if same then Json.mkObj [("same", true), ("hyp", hyp), ("spec", specJ)]
+  else Json.mkObj [("same", false), ("hyp", hyp), ("spec", specJ), ("model", exceptToJson toJ model)]
+
+def handleItem (tbl : Array Cell) (j : Json) : Except String Json := do
+  let op ← (← j.getObjVal? "op").getStr?
+  match op with
+  | "join" =>
+    let tyS ← (← j.getObjVal? "ty").getStr?
+    let ty := JoinType.ofString? tyS
+    let on ← optStrList j "on"
+    let a ← idxList tbl (← j.getObjVal? "a")
+    let b ← idxList tbl (← j.getObjVal? "b")
+    let impl ← implOf (pairList tbl) j
+    return answer pairsToJson permB (join ty on a b) impl (ty.isSome && Spec.joinHyp on a b)
+      (fun ps => match ty with | some t => Spec.joinSpec t on a b ps | none => false)
+  | "merge" =>
+    let tyS ← (← j.getObjVal? "ty").getStr?
+    let ty := JoinType.ofString? tyS
+    let on ← optStrList j "on"
+    let a ← idxList tbl (← j.getObjVal? "a")
+    let b ← idxList tbl (← j.getObjVal? "b")
+    let impl ← implOf (idxList tbl) j
+    return answer cellsToJson (· == ·) (merge ty on a b) impl (ty.isSome && Spec.joinHyp on a b)
+      (fun out => match ty with | some t => Spec.mergeSpec t on a b out | none => false)
+  | "coalesce" =>
+    let ts ← (← (← j.getObjVal? "ts").getArr?).toList.mapM (idxList tbl)
+    let impl ← implOf (idxList tbl) j
+    return answer cellsToJson (· == ·) (coalesce ts) impl (Spec.coalesceHyp ts) (Spec.coalesceSpec ts)
+  | "addStatics" =>
+    let a ← idxList tbl (← j.getObjVal? "a")
+    let b ← idxList tbl (← j.getObjVal? "b")
+    let statics ← strList (← j.getObjVal? "statics")
+    let impl ← implOf (idxList tbl) j
+    return answer cellsToJson (· == ·) (addStatics a b statics) impl (Spec.addStaticsHyp a b)
+      (Spec.addStaticsSpec a b statics)
+  | "periodMerge" =>
+    let a ← idxList tbl (← j.getObjVal? "a")
+    let b ← idxList tbl (← j.getObjVal? "b")
+    let suffix : Option String ← match j.getObjVal? "suffix" with
+      | .ok v => if v.isNull then pure none else (v.getStr?).map some
+      | .error _ => pure none
+    let impl ← implOf (idxList tbl) j
+    return answer cellsToJson (· == ·) (periodMerge a b suffix) impl (Spec.leftHyp a)
+      (Spec.periodMergeSpec a b suffix)
+  | o => throw s!"unknown op {o}"
+
+def handle (j : Json) : Except String Json := do
+  let tbl := (← cellsFromJson (← j.getObjVal? "cells")).toArray
+  let items ← (← j.getObjVal? "items").getArr?
+  let res ← items.toList.mapM (handleItem tbl)
+  return Json.mkObj [("res", Json.arr res.toArray)]
+
+def main : IO Unit := serve handle
